@@ -1110,5 +1110,703 @@ theorem parse_eq (s : Str) :
     | error e => simp
     | ok ps => simp [toSpecPieces]
 
+/-! ### the formatting functions against the reference rule -/
+
+theorem firstLetterAux_eq (toks : List Tok) :
+    firstLetterAux toks =
+      match toks.find? fun t => isSpecialTok t || isLetterTok t with
+      | some t => if isSpecialTok t then ['{'] ++ t.1 ++ ['}'] else t.1
+      | none => [] := by
+  induction toks with
+  | nil => rfl
+  | cons a r ih =>
+    obtain ⟨t, l⟩ := a
+    simp only [firstLetterAux, List.find?_cons]
+    by_cases hb : isBraceTok t = true
+    · have h1 : isSpecialTok (t, l) = false := by
+        simp only [isBraceTok, Bool.or_eq_true, decide_eq_true_eq] at hb
+        rcases hb with rfl | rfl <;> rfl
+      have h2 : isLetterTok (t, l) = false := by
+        simp only [isBraceTok, Bool.or_eq_true, decide_eq_true_eq] at hb
+        rcases hb with rfl | rfl <;> rfl
+      simp [hb, h1, h2, ih]
+    · simp only [hb, Bool.false_eq_true, if_false]
+      by_cases hs : startsWithBackslash t = true ∧ t ≠ ['\\']
+      · have h1 : isSpecialTok (t, l) = true := by
+          simpa [isSpecialTok, startsWithBackslash] using hs
+        simp [hs, h1]
+      · have h1 : isSpecialTok (t, l) = false := by
+          cases h : isSpecialTok (t, l)
+          · rfl
+          · exfalso; apply hs; simpa [isSpecialTok, startsWithBackslash] using h
+        simp only [hs, if_false, h1, Bool.false_or]
+        by_cases hl : t ≠ [] ∧ t.all isAlpha = true
+        · have h2 : isLetterTok (t, l) = true := by simpa [isLetterTok] using hl
+          simp [hl, h2, h1]
+        · have h2 : isLetterTok (t, l) = false := by
+            cases h : isLetterTok (t, l)
+            · rfl
+            · exfalso; apply hl; simpa [isLetterTok] using h
+          simp only [hl, if_false, h2]
+          exact ih
+
+theorem bibtexFirstLetter_eq : bibtexFirstLetter = firstLetter := by
+  funext s
+  simp only [bibtexFirstLetter, firstLetter]
+  congr 1
+  funext toks
+  exact firstLetterAux_eq toks
+
+theorem bibtexAbbreviate_eq (s : Str) (delim : Option Str) :
+    bibtexAbbreviate s delim = abbreviate delim s := by
+  unfold bibtexAbbreviate abbreviate
+  rw [bibtexFirstLetter_eq]
+  cases (splitTex .hyphen s).mapM firstLetter with
+  | none => rfl
+  | some ls => cases delim <;> rfl
+
+/-- the last element, the way `join` takes it -/
+theorem drop_last_flatten (a : Str) (l : List Str) :
+    ((a :: l).drop ((a :: l).length - 1)).flatten = (a :: l).getLast (by simp) := by
+  induction l generalizing a with
+  | nil => simp
+  | cons b l ih =>
+    have := ih b
+    simp only [List.length_cons, Nat.add_sub_cancel] at this ⊢
+    rw [List.getLast_cons (by simp)]
+    rw [← this]
+    simp
+
+/-- tokens from the second on, when there are at least three: spaces, then a tie before the last -/
+theorem interleave_tail (n : Nat) (b : Bool) (tie space : Str) (i : Nat) (a : Str) (l : List Str)
+    (hi : 0 < i) (hn : n = i + (l.length + 2)) (u : Str) :
+    interleave (defaultSep n b tie space) i (a :: u :: l) =
+      joinWith space (a :: u :: l).dropLast ++ tie ++ (a :: u :: l).getLast (by simp) := by
+  induction l generalizing i a u with
+  | nil =>
+    have h1 : i + 2 = n := by simp at hn; omega
+    simp [interleave, defaultSep, h1, joinWith]
+  | cons c l ih =>
+    have h1 : ¬ (i + 2 = n) := by simp at hn; omega
+    have h2 : ¬ (i = 0) := by omega
+    rw [interleave, ih (i + 1) u (by omega) (by simp at hn ⊢; omega) c]
+    simp only [defaultSep, h1, h2, if_false, false_and]
+    rw [List.getLast_cons (by simp)]
+    simp [joinWith, List.dropLast]
+
+theorem joinNames_eq (ws : List Str) (tie space : Str) :
+    joinNames ws tie space = joinDefault ws tie space := by
+  unfold joinNames joinDefault
+  match ws with
+  | [] => rfl
+  | [a] => simp [interleave, joinWith]
+  | [a, b] => simp [interleave, joinWith, defaultSep]
+  | a :: b :: c :: l =>
+    have h1 : ¬ ((a :: b :: c :: l).length ≤ 2) := by simp
+    simp only [h1, if_false, tieOrSpace, Option.map_map]
+    congr 1
+    funext n
+    simp only [Function.comp]
+    rw [interleave, interleave_tail _ _ _ _ 1 b l (by omega) (by simp; omega) c]
+    have h2 : ¬ (0 + 2 = (a :: b :: c :: l).length) := by simp
+    simp only [defaultSep, h2, if_false, true_and, enoughChars]
+    have h3 := drop_last_flatten b (c :: l)
+    simp only [List.length_cons, Nat.add_sub_cancel] at h3 ⊢
+    rw [h3]
+    by_cases hn : n < 3 <;> simp [hn, List.append_assoc]
+
+/-! ### trailing ties -/
+
+theorem rstripTilde_eq (s : Str) : rstripTilde s = s.take (s.length - trailingTies s) := by
+  unfold rstripTilde trailingTies
+  have h : s = (s.reverse.dropWhile (· = '~')).reverse ++ (s.reverse.takeWhile (· = '~')).reverse := by
+    rw [← List.reverse_append, List.takeWhile_append_dropWhile, List.reverse_reverse]
+  conv => rhs; rw [h]
+  simp
+
+theorem endsWith_one (s : Str) : endsWith s ['~'] = decide (1 ≤ trailingTies s) := by
+  unfold endsWith trailingTies List.isSuffixOf
+  cases s.reverse with
+  | nil => rfl
+  | cons a t =>
+    by_cases h : a = '~'
+    · subst h; simp [List.isPrefixOf]
+    · simp [List.isPrefixOf, h]
+      exact fun h' => h h'.symm
+
+theorem endsWith_two (s : Str) : endsWith s ['~', '~'] = decide (2 ≤ trailingTies s) := by
+  unfold endsWith trailingTies List.isSuffixOf
+  cases s.reverse with
+  | nil => rfl
+  | cons a t =>
+    by_cases h : a = '~'
+    · subst h
+      cases t with
+      | nil => simp [List.isPrefixOf]
+      | cons b t =>
+        by_cases h2 : b = '~'
+        · subst h2; simp [List.isPrefixOf]
+        · simp [List.isPrefixOf, h2]
+          exact fun h' => h2 h'.symm
+    · simp [List.isPrefixOf, h]
+      exact fun h' => (h h'.symm).elim
+
+def ofOpt : Option Str → Except FmtErr Str
+  | none => .error .tooDeep
+  | some s => .ok s
+
+/-- the discretionary-tie tail of `NamePart.format` -/
+theorem tie_tail (front post1 : Str) :
+    (if (!endsWith post1 ['~', '~'] && endsWith post1 ['~']) = true then
+        match tieOrSpace (front ++ rstripTilde post1) ['~'] [' '] with
+        | none => Except.error FmtErr.tooDeep
+        | some d => Except.ok (front ++ rstripTilde post1 ++ d)
+      else if endsWith post1 ['~', '~'] = true then Except.ok (front ++ rstripTilde post1 ++ ['~'])
+      else Except.ok (front ++ rstripTilde post1)) = ofOpt (withPost front post1) := by
+  rw [endsWith_one, endsWith_two, rstripTilde_eq]
+  unfold withPost
+  simp only []
+  generalize trailingTies post1 = k
+  by_cases h0 : k = 0
+  · subst h0; simp [ofOpt]
+  · by_cases h1 : k = 1
+    · subst h1
+      simp only [tieOrSpace, enoughChars]
+      simp
+      cases bibtexLen (front ++ List.take (post1.length - 1) post1) with
+      | none => simp [ofOpt]
+      | some n => by_cases hn : n < 3 <;> simp [ofOpt, hn]
+    · have h2 : 2 ≤ k := by omega
+      simp [h0, h1, h2, ofOpt]
+
+theorem getPart_ofLetter {a : Char} {slot : Slot} (person : Person) (h : Slot.ofLetter a = some slot) :
+    person.getPart a = some (tokens person slot) := by
+  unfold Slot.ofLetter at h
+  unfold Person.getPart
+  by_cases h1 : a = 'f'
+  · subst h1; cases h; rfl
+  · by_cases h2 : a = 'v'
+    · subst h2; cases h; rfl
+    · by_cases h3 : a = 'l'
+      · subst h3; cases h; rfl
+      · by_cases h4 : a = 'j'
+        · subst h4; cases h; rfl
+        · simp [h1, h2, h3, h4] at h
+
+/-- what a legal letter run decodes to -/
+theorem decodeLetters_some {run : Str} {l : Letters} (h : decodeLetters run = some l) :
+    ∃ a, Slot.ofLetter a = some l.slot ∧
+      ((lower run = [a] ∧ l.full = false) ∨ (lower run = [a, a] ∧ l.full = true)) := by
+  unfold decodeLetters at h
+  split at h
+  · rename_i a hv
+    simp only [Option.map_eq_some_iff] at h
+    obtain ⟨s, hs, rfl⟩ := h
+    exact ⟨a, hs, Or.inl ⟨hv, rfl⟩⟩
+  · rename_i a b hv
+    split at h
+    · rename_i hab
+      subst hab
+      simp only [Option.map_eq_some_iff] at h
+      obtain ⟨s, hs, rfl⟩ := h
+      exact ⟨a, hs, Or.inr ⟨hv, rfl⟩⟩
+    · cases h
+  · cases h
+
+/-- `NamePart.format` for a part with letters -/
+theorem formatPart_some (person : Person) (pre run : Str) (delim : Option Str) (post : Str)
+    (l : Letters) (h : decodeLetters run = some l) :
+    formatPart person pre (some run) delim post =
+      ofOpt (Spec.NameFormat.formatPart person ⟨pre, some l, delim, post⟩) := by
+  obtain ⟨a, ha, hv⟩ := decodeLetters_some h
+  have hg := getPart_ofLetter person ha
+  unfold Pybtex.formatPart Spec.NameFormat.formatPart
+  simp only [Option.isNone_some, Bool.false_eq_true, false_and, if_false, body, shownTokens]
+  rcases hv with ⟨hv, hf⟩ | ⟨hv, hf⟩
+  · simp only [hv, hf, List.length_cons, List.length_nil, if_true, List.head?_cons, hg]
+    have hab : (fun n => bibtexAbbreviate n delim) = abbreviate delim :=
+      funext fun n => bibtexAbbreviate_eq n delim
+    rw [hab]
+    by_cases ht : tokens person l.slot = []
+    · simp [ht, ofOpt]
+    · simp only [ht, and_false, if_false, Bool.false_eq_true]
+      cases List.mapM (abbreviate delim) (tokens person l.slot) with
+      | none => rfl
+      | some ns =>
+        cases delim with
+        | none =>
+          simp only [joinNames_eq, Option.bind_some, joinShown, Bool.false_eq_true, if_false]
+          cases joinDefault ns ['.', '~'] ['.', ' '] with
+          | none => rfl
+          | some j => exact tie_tail (pre ++ j) post
+        | some d => exact tie_tail (pre ++ joinWith d ns) post
+  · have h2 : ¬ (0 + 1 + 1 = 1) := by omega
+    have h3 : [a, a].getLast? = some a := by simp
+    simp only [hv, hf, h2, h3, List.length_cons, List.length_nil, if_true, if_false, List.head?_cons, hg,
+      and_self, Bool.false_eq_true, Option.bind_some]
+    by_cases ht : tokens person l.slot = []
+    · simp [ht, ofOpt]
+    · simp only [ht, and_false, if_false]
+      cases delim with
+      | none =>
+        simp only [joinNames_eq, joinShown, if_true]
+        cases joinDefault (tokens person l.slot) ['~'] [' '] with
+        | none => rfl
+        | some j => exact tie_tail (pre ++ j) post
+      | some d => exact tie_tail (pre ++ joinWith d (tokens person l.slot)) post
+
+/-- `NamePart.format` for a part without letters (as the parser produces it) -/
+theorem formatPart_none (person : Person) (pre : Str) :
+    formatPart person pre none none [] =
+      ofOpt (Spec.NameFormat.formatPart person ⟨pre, none, none, []⟩) := by
+  unfold Pybtex.formatPart Spec.NameFormat.formatPart
+  simp only [Option.isNone_none, true_and, and_true]
+  have hj : joinNames [] ['~'] [' '] = some [] := rfl
+  by_cases hp : pre = []
+  · subst hp
+    simp [hj, ofOpt, withPost, trailingTies, endsWith, rstripTilde]
+  · simp only [ne_eq, hp, not_false_eq_true, if_true, List.length_nil, List.head?_nil]
+    simp only [Bool.not_true, Bool.false_eq_true, false_and, if_false, hj]
+    exact tie_tail [] pre
+
+theorem formatPieces_text (person : Person) (t : Str) (ps : List Piece) :
+    formatPieces person (t.map Piece.ch ++ ps) = (formatPieces person ps).map fun s => t ++ s := by
+  induction t with
+  | nil => simp
+  | cons c t ih =>
+    simp only [List.map_cons, List.cons_append, formatPieces, ih]
+    cases formatPieces person ps <;> simp
+
+theorem toSpecPart_partOk {pre : Str} {fc delim : Option Str} {post : Str}
+    (h : PartOk (.part pre fc delim post)) : ∃ p, toSpecPart pre fc delim post = some p := by
+  cases fc with
+  | none => exact ⟨_, rfl⟩
+  | some run =>
+    have h' : formatCharsOk false run = true := h
+    rw [← decodeLetters_isSome] at h'
+    obtain ⟨l, hl⟩ := Option.isSome_iff_exists.1 h'
+    exact ⟨⟨pre, some l, delim, post⟩, by simp [toSpecPart, hl]⟩
+
+theorem toSpecPieces_partOk {ps : List FmtPart} (h : ∀ p ∈ ps, PartOk p) :
+    ∃ pieces, toSpecPieces ps = some pieces := by
+  induction ps with
+  | nil => exact ⟨_, rfl⟩
+  | cons a r ih =>
+    obtain ⟨ps', hps'⟩ := ih (fun p hp => h p (by simp [hp]))
+    cases a with
+    | text t => exact ⟨t.map Piece.ch ++ ps', by simp [toSpecPieces, hps']⟩
+    | part pre fc delim post =>
+      obtain ⟨p, hp⟩ := toSpecPart_partOk (h (.part pre fc delim post) (by simp))
+      exact ⟨Piece.part p :: ps', by simp [toSpecPieces, hps', hp]⟩
+
+theorem formatPart_eq (person : Person) {pre : Str} {fc delim : Option Str} {post : Str} {p : Part}
+    (h : PartOk (.part pre fc delim post)) (hp : toSpecPart pre fc delim post = some p) :
+    formatPart person pre fc delim post = ofOpt (Spec.NameFormat.formatPart person p) := by
+  cases fc with
+  | none =>
+    obtain ⟨rfl, rfl⟩ : delim = none ∧ post = [] := h
+    cases hp
+    exact formatPart_none person pre
+  | some run =>
+    simp only [toSpecPart, Option.map_eq_some_iff] at hp
+    obtain ⟨l, hl, rfl⟩ := hp
+    exact formatPart_some person pre run delim post l hl
+
+theorem formatParts_eq (person : Person) {ps : List FmtPart} {pieces : List Piece}
+    (h : ∀ p ∈ ps, PartOk p) (hp : toSpecPieces ps = some pieces) :
+    formatParts person ps = ofOpt (formatPieces person pieces) := by
+  induction ps generalizing pieces with
+  | nil => cases hp; rfl
+  | cons a r ih =>
+    have hr : ∀ p ∈ r, PartOk p := fun p hp => h p (by simp [hp])
+    cases a with
+    | text t =>
+      simp only [toSpecPieces, Option.map_eq_some_iff] at hp
+      obtain ⟨ps', hps', rfl⟩ := hp
+      rw [formatParts, ih hr hps', formatPieces_text]
+      cases formatPieces person ps' <;> rfl
+    | part pre fc delim post =>
+      simp only [toSpecPieces, Option.bind_eq_some_iff, Option.map_eq_some_iff] at hp
+      obtain ⟨p, hp1, ps', hps', rfl⟩ := hp
+      rw [formatParts, ih hr hps', formatPart_eq person (h _ (by simp)) hp1]
+      simp only [formatPieces]
+      cases Spec.NameFormat.formatPart person p with
+      | none => rfl
+      | some s => cases formatPieces person ps' <;> rfl
+
+/-- the model against the reference, outcome by outcome -/
+theorem formatName_spec (name fmt : Str) :
+    match formatName name fmt with
+    | .ok (s, _) => Spec.formatName name fmt = .ok s
+    | .error .tooDeep => Spec.formatName name fmt = .tooDeep
+    | .error .internal => False
+    | .error _ => Spec.formatName name fmt = .malformed := by
+  unfold Pybtex.formatName Spec.formatName
+  rw [parse_eq]
+  cases hpf : parseFormat fmt with
+  | error e =>
+    have := parseFormat_not_internal fmt
+    rw [hpf] at this
+    cases e <;> simp_all
+  | ok parts =>
+    have hok := parseFormat_partOk hpf
+    obtain ⟨pieces, hpieces⟩ := toSpecPieces_partOk hok
+    simp only [hpieces]
+    cases hm : mkPerson name [] [] [] [] [] with
+    | error e =>
+      have := (mkPerson_error hm).1
+      subst this
+      simp
+    | ok pr =>
+      obtain ⟨person, rep⟩ := pr
+      simp only [formatParts_eq person hok hpieces]
+      cases formatPieces person pieces <;> simp [ofOpt]
+
+/-! ### brace-level-0 text -/
+
+/-- put text in front of a result -/
+def prepend (t : Str) : Except FmtErr (Str × Bool) → Except FmtErr (Str × Bool)
+  | .ok (s, b) => .ok (t ++ s, b)
+  | .error e => .error e
+
+theorem prepend_nil (r : Except FmtErr (Str × Bool)) : prepend [] r = r := by
+  cases r with
+  | error e => rfl
+  | ok p => rfl
+
+theorem prepend_append (a b : Str) (r : Except FmtErr (Str × Bool)) :
+    prepend (a ++ b) r = prepend a (prepend b r) := by
+  cases r with
+  | error e => rfl
+  | ok p => simp [prepend]
+
+/-- `format_name` after the format string has been parsed -/
+def finishName (name : Str) : Except FmtErr (List FmtPart) → Except FmtErr (Str × Bool)
+  | .error e => .error e
+  | .ok parts =>
+    match mkPerson name [] [] [] [] [] with
+    | .error .tooDeep => .error .tooDeep
+    | .error _ => .error .internal
+    | .ok (person, rep) =>
+      match formatParts person parts with
+      | .error e => .error e
+      | .ok s => .ok (s, rep)
+
+theorem formatName_eq_finish (name fmt : Str) :
+    formatName name fmt = finishName name (parseFormat fmt) := by
+  unfold formatName finishName
+  cases parseFormat fmt <;> rfl
+
+def consOut (c : Char) : Except FmtErr Str → Except FmtErr Str
+  | .error e => .error e
+  | .ok t => .ok (c :: t)
+
+theorem finishName_cons (name : Str) (c : Char) (ps ps' : List FmtPart)
+    (h : ∀ person, formatParts person ps' = consOut c (formatParts person ps)) :
+    finishName name (.ok ps') = prepend [c] (finishName name (.ok ps)) := by
+  unfold finishName
+  simp only
+  cases mkPerson name [] [] [] [] [] with
+  | error e => cases e <;> rfl
+  | ok pr =>
+    obtain ⟨person, rep⟩ := pr
+    simp only [h person]
+    cases formatParts person ps <;> rfl
+
+theorem formatParts_text (person : Person) (t : Str) (ps : List FmtPart) :
+    formatParts person (.text t :: ps) =
+      match formatParts person ps with
+      | .error e => .error e
+      | .ok u => .ok (t ++ u) := by
+  rw [formatParts]
+  cases formatParts person ps <;> rfl
+
+/-- parsing after one more level-0 character in front: the same error, or parts that format
+to the same text with the character in front -/
+theorem parseFormat_text_cons (c : Char) (s : Str) (h1 : c ≠ '{') (h2 : c ≠ '}') :
+    (∀ e, parseFormat s = .error e → parseFormat (c :: s) = .error e) ∧
+    (∀ ps, parseFormat s = .ok ps → ∃ ps', parseFormat (c :: s) = .ok ps' ∧
+      ∀ person, formatParts person ps' = consOut c (formatParts person ps)) := by
+  have htext : ∀ ps person, formatParts person (.text [c] :: ps) = consOut c (formatParts person ps) := by
+    intro ps person
+    rw [formatParts_text]
+    cases formatParts person ps <;> rfl
+  rw [parseFormat_text _ _ h1 h2]
+  cases s with
+  | nil =>
+    simp only [List.dropWhile_nil, List.takeWhile_nil, parseFormat_nil]
+    exact ⟨(fun e h => nomatch h), fun ps h => by cases h; exact ⟨_, rfl, htext _⟩⟩
+  | cons c' r =>
+    by_cases hb : notBrace c' = true
+    · have hb' : c' ≠ '{' ∧ c' ≠ '}' := by simpa [notBrace] using hb
+      simp only [List.dropWhile_cons, List.takeWhile_cons, hb, if_true]
+      rw [parseFormat_text _ _ hb'.1 hb'.2]
+      cases parseFormat (List.dropWhile notBrace r) with
+      | error e => exact ⟨fun e h => (by cases h; rfl), fun ps h => nomatch h⟩
+      | ok ps0 =>
+        refine ⟨(fun e h => nomatch h), fun ps h => ?_⟩
+        cases h
+        refine ⟨_, rfl, fun person => ?_⟩
+        rw [formatParts_text, formatParts_text]
+        cases formatParts person ps0 <;> rfl
+    · have hb' : notBrace c' = false := by simpa using hb
+      simp only [List.dropWhile_cons, List.takeWhile_cons, hb', Bool.false_eq_true, if_false]
+      cases parseFormat (c' :: r) with
+      | error e => exact ⟨fun e h => (by cases h; rfl), fun ps h => nomatch h⟩
+      | ok ps0 =>
+        refine ⟨(fun e h => nomatch h), fun ps h => ?_⟩
+        cases h
+        exact ⟨_, rfl, htext _⟩
+
+theorem formatName_text_cons (name : Str) (c : Char) (s : Str) (h1 : c ≠ '{') (h2 : c ≠ '}') :
+    formatName name (c :: s) = prepend [c] (formatName name s) := by
+  rw [formatName_eq_finish, formatName_eq_finish]
+  obtain ⟨he, hok⟩ := parseFormat_text_cons c s h1 h2
+  cases hp : parseFormat s with
+  | error e => rw [he e hp]; rfl
+  | ok ps =>
+    obtain ⟨ps', hps', hf⟩ := hok ps hp
+    rw [hps']
+    exact finishName_cons name c ps ps' hf
+
+theorem formatName_text_append (name t rest : Str) (ht : ∀ c ∈ t, c ≠ '{' ∧ c ≠ '}') :
+    formatName name (t ++ rest) = prepend t (formatName name rest) := by
+  induction t with
+  | nil => rw [prepend_nil]; rfl
+  | cons c t ih =>
+    have hc := ht c (by simp)
+    rw [List.cons_append, formatName_text_cons _ _ _ hc.1 hc.2, ih (fun x hx => ht x (by simp [hx]))]
+    exact (prepend_append [c] t _).symm
+
+/-! ### clause-wise consequences -/
+
+theorem trailingTies_of_getLast {s : Str} (h : s.getLast? ≠ some '~') : trailingTies s = 0 := by
+  unfold trailingTies
+  rw [← List.head?_reverse] at h
+  cases hr : s.reverse with
+  | nil => rfl
+  | cons a t =>
+    rw [hr] at h
+    have : a ≠ '~' := by simpa using h
+    simp [this]
+
+theorem trailingTies_append_tie (s : Str) : trailingTies (s ++ ['~']) = trailingTies s + 1 := by
+  simp [trailingTies]
+
+theorem withPost_plain {front post : Str} (h : trailingTies post = 0) :
+    withPost front post = some (front ++ post) := by
+  simp [withPost, h]
+
+theorem withPost_one {front core : Str} (h : trailingTies core = 0) :
+    withPost front (core ++ ['~']) =
+      (bibtexLen (front ++ core)).map fun n => front ++ core ++ (if n < 3 then ['~'] else [' ']) := by
+  have hk : trailingTies (core ++ ['~']) = 1 := by rw [trailingTies_append_tie, h]
+  simp [withPost, hk]
+
+theorem withPost_two {front core : Str} (h : trailingTies core = 0) :
+    withPost front (core ++ ['~', '~']) = some (front ++ core ++ ['~']) := by
+  have hk : trailingTies (core ++ ['~', '~']) = 2 := by
+    have : core ++ ['~', '~'] = (core ++ ['~']) ++ ['~'] := by simp
+    rw [this, trailingTies_append_tie, trailingTies_append_tie, h]
+  have : core.length + 2 - 2 = core.length := by omega
+  simp [withPost, hk, this]
+
+/-- `NamePart.format` for a part with letters whose name part is not empty:
+pre-text, body, post-text with its tie directive -/
+theorem formatPart_body (person : Person) (pre run : Str) (delim : Option Str) (post : Str)
+    (l : Letters) (h : decodeLetters run = some l) (hne : tokens person l.slot ≠ []) :
+    formatPart person pre (some run) delim post =
+      ofOpt ((body l delim (tokens person l.slot)).bind fun b => withPost (pre ++ b) post) := by
+  rw [formatPart_some person pre run delim post l h]
+  simp [Spec.NameFormat.formatPart, hne]
+
+theorem formatPart_empty (person : Person) (pre run : Str) (delim : Option Str) (post : Str)
+    (l : Letters) (h : decodeLetters run = some l) (he : tokens person l.slot = []) :
+    formatPart person pre (some run) delim post = .ok [] := by
+  rw [formatPart_some person pre run delim post l h]
+  simp [Spec.NameFormat.formatPart, he, ofOpt]
+
+theorem withPost_length {front post out : Str} (h : withPost front post = some out) :
+    front.length ≤ out.length ∧ (post ≠ [] → out ≠ []) := by
+  unfold withPost at h
+  simp only at h
+  have hk : trailingTies post ≤ post.length := by
+    unfold trailingTies
+    have := (List.takeWhile_sublist (l := post.reverse) (· = '~')).length_le
+    simpa using this
+  split at h
+  · rename_i h0
+    cases h
+    refine ⟨by simp, fun hp => ?_⟩
+    have : 0 < post.length := List.length_pos_iff.2 hp
+    intro hnil
+    have := congrArg List.length hnil
+    simp at this
+    omega
+  · split at h
+    · simp only [Option.map_eq_some_iff] at h
+      obtain ⟨n, _, rfl⟩ := h
+      refine ⟨by simp, fun _ => ?_⟩
+      split <;> simp
+    · cases h
+      exact ⟨by simp, fun _ => by simp⟩
+
+theorem joinWith_length {sep : Str} {ws : List Str} {t : Str} (h : t ∈ ws) :
+    t.length ≤ (joinWith sep ws).length := by
+  induction ws with
+  | nil => simp at h
+  | cons a r ih =>
+    cases r with
+    | nil =>
+      have : t = a := by simpa using h
+      subst this; simp [joinWith]
+    | cons b r' =>
+      simp only [joinWith, List.length_append]
+      rcases List.mem_cons.1 h with rfl | h'
+      · omega
+      · have := ih h'; omega
+
+theorem interleave_length {sepAt : Nat → Str} {i : Nat} {ws : List Str} {t : Str} (h : t ∈ ws) :
+    t.length ≤ (interleave sepAt i ws).length := by
+  induction ws generalizing i with
+  | nil => simp at h
+  | cons a r ih =>
+    cases r with
+    | nil =>
+      have : t = a := by simpa using h
+      subst this; simp [interleave]
+    | cons b r' =>
+      simp only [interleave, List.length_append]
+      rcases List.mem_cons.1 h with rfl | h'
+      · omega
+      · have := ih (i := i + 1) h'; omega
+
+theorem joinDefault_length {ws : List Str} {tie space out t : Str}
+    (h : joinDefault ws tie space = some out) (ht : t ∈ ws) : t.length ≤ out.length := by
+  unfold joinDefault at h
+  split at h
+  · simp at ht
+  · split at h
+    · cases h; exact interleave_length ht
+    · simp only [Option.map_eq_some_iff] at h
+      obtain ⟨n, _, rfl⟩ := h
+      exact interleave_length ht
+
+/-- a name part shown in full with a non-empty token has a non-empty body -/
+theorem body_full_ne_nil {l : Letters} {sep : Option Str} {toks : List Str} {b : Str}
+    (hf : l.full = true) (h : body l sep toks = some b) (ht : ∃ t ∈ toks, t ≠ []) : b ≠ [] := by
+  obtain ⟨t, htm, htne⟩ := ht
+  have hpos : 0 < t.length := List.length_pos_iff.2 htne
+  simp only [body, shownTokens, hf, if_true, Option.bind_some, joinShown] at h
+  have hlen : t.length ≤ b.length := by
+    cases sep with
+    | none => exact joinDefault_length h htm
+    | some s => cases h; exact joinWith_length htm
+  intro hb; subst hb; simp only [List.length_nil] at hlen; omega
+
+theorem joinDefault_one (a tie space : Str) : joinDefault [a] tie space = some a := by
+  simp [joinDefault, interleave]
+
+theorem joinDefault_two (a z tie space : Str) : joinDefault [a, z] tie space = some (a ++ tie ++ z) := by
+  simp [joinDefault, interleave, defaultSep]
+
+theorem joinDefault_many (a m : Str) (mid : List Str) (z tie space : Str) :
+    joinDefault (a :: m :: mid ++ [z]) tie space =
+      (bibtexLen a).map fun n =>
+        a ++ (if n < 3 then tie else space) ++ joinWith space (m :: mid) ++ tie ++ z := by
+  rw [← joinNames_eq]
+  unfold joinNames
+  have h1 : ¬ ((a :: m :: mid ++ [z]).length ≤ 2) := by simp
+  have h2 : (m :: mid ++ [z]).dropLast = m :: mid := by
+    have : m :: mid ++ [z] = (m :: mid) ++ [z] := rfl
+    rw [this, List.dropLast_concat]
+  have h3 : ((m :: mid ++ [z]).drop ((m :: mid ++ [z]).length - 1)).flatten = z := by
+    have : m :: mid ++ [z] = (m :: mid) ++ [z] := rfl
+    rw [this]
+    simp
+  rw [if_neg h1]
+  simp only [tieOrSpace, Option.map_map, List.cons_append]
+  simp only [List.cons_append] at h2 h3
+  rw [h2, h3]
+  cases bibtexLen a with
+  | none => rfl
+  | some n => by_cases hn : n < 3 <;> simp [enoughChars, hn]
+
+/-! ### the tokens of a person made from a name string are never empty -/
+
+theorem splitTex_space_nil : splitTex .space [] = [] := by decide
+
+theorem parseName_tokens_ne_nil {s : Str} {p : Person} {b : Bool} (h : parseName s = .ok (p, b)) :
+    ∀ t, (t ∈ p.first ∨ t ∈ p.middle ∨ t ∈ p.prelast ∨ t ∈ p.last ∨ t ∈ p.lineage) → t ≠ [] := by
+  have hr : (p, b) = Names.splitWith Names.isVonB s :=
+    Names.parseName_ok h (fun t _ b hb => by simp [Names.isVonB, hb])
+  have h2 := Names.splitWith_tokens Names.isVonB s
+  rw [← hr] at h2
+  simp only at h2
+  intro t ht
+  split at h2
+  · rw [h2] at ht; simp at ht
+  · obtain ⟨h3, h4⟩ := h2
+    have hm : t ∈ splitTex .space s := by
+      rw [← h3]
+      rw [h4] at ht
+      simp only [List.mem_append]
+      rcases ht with ht | ht | ht | ht | ht
+      · exact Or.inl (Or.inl (Or.inl ht))
+      · exact Or.inl (Or.inl (Or.inr ht))
+      · exact Or.inl (Or.inr ht)
+      · exact Or.inr ht
+      · simp at ht
+    exact Names.splitTex_space_ne_nil hm
+  · obtain ⟨h3, h4, h5⟩ := h2
+    rw [h4] at ht
+    rcases ht with ht | ht | ht | ht | ht
+    · exact Names.splitTex_space_ne_nil (s := _) (by rw [← h5]; simp [ht])
+    · exact Names.splitTex_space_ne_nil (s := _) (by rw [← h5]; simp [ht])
+    · exact Names.splitTex_space_ne_nil (s := _) (by rw [← h3]; simp [ht])
+    · exact Names.splitTex_space_ne_nil (s := _) (by rw [← h3]; simp [ht])
+    · simp at ht
+  · obtain ⟨h3, h4, h5⟩ := h2
+    rcases ht with ht | ht | ht | ht | ht
+    · exact Names.splitTex_space_ne_nil (s := _) (by rw [← h5]; simp [ht])
+    · exact Names.splitTex_space_ne_nil (s := _) (by rw [← h5]; simp [ht])
+    · exact Names.splitTex_space_ne_nil (s := _) (by rw [← h3]; simp [ht])
+    · exact Names.splitTex_space_ne_nil (s := _) (by rw [← h3]; simp [ht])
+    · exact Names.splitTex_space_ne_nil (s := _) (by rw [← h4]; exact ht)
+
+theorem mkPerson_tokens_ne_nil {name : Str} {p : Person} {rep : Bool}
+    (h : mkPerson name [] [] [] [] [] = .ok (p, rep)) (slot : Slot) :
+    ∀ t ∈ tokens p slot, t ≠ [] := by
+  unfold mkPerson at h
+  simp only [splitTex_space_nil, List.append_nil] at h
+  split at h
+  · cases h
+  · rename_i p0 r hb
+    cases h
+    split at hb
+    · have := parseName_tokens_ne_nil hb
+      intro t ht
+      apply this t
+      cases slot <;> simp only [tokens, List.mem_append] at ht
+      · rcases ht with ht | ht
+        · exact Or.inl ht
+        · exact Or.inr (Or.inl ht)
+      · exact Or.inr (Or.inr (Or.inl ht))
+      · exact Or.inr (Or.inr (Or.inr (Or.inl ht)))
+      · exact Or.inr (Or.inr (Or.inr (Or.inr ht)))
+    · cases hb
+      intro t ht
+      cases slot <;> simp [tokens] at ht
+
+/-! ### concrete data for the `_nonvacuous` witnesses of `Props/C11.lean` -/
+
+def exName : Str := "Charles Louis Xavier Joseph de la Vall{\\'e}e Poussin".toList
+
+def exPerson : Person :=
+  { first := ["Charles".toList], middle := ["Louis".toList, "Xavier".toList, "Joseph".toList],
+    prelast := ["de".toList, "la".toList], last := ["Vall{\\'e}e".toList, "Poussin".toList] }
+
+theorem exPerson_eq : mkPerson exName [] [] [] [] [] = .ok (exPerson, false) := by decide +kernel
+
 end NameFormat
 end Pybtex
